@@ -39,6 +39,7 @@ class FaultDirector(simcluster.Director):
         self.p = spec.get("p", 0.0)
         self.kinds = spec.get("kinds", ["drop_before", "drop_after", "lose_reply", "error"])
         self.codes = spec.get("codes", RETRIABLE_CODES)
+        self.codes_by_api = spec.get("codes_by_api", {})
         self.apis = spec.get("apis", ["Produce"])
         self.script = list(spec.get("script", []))   # [[api, nth, kind, code]]
         self.count = {}
@@ -58,11 +59,12 @@ class FaultDirector(simcluster.Director):
         if ctx.api in self.apis and self.budget > 0 and self.rng.random() < self.p:
             self.budget -= 1
             k = self.rng.choice(self.kinds)
-            if ctx.api != "Produce" and k == "error":
+            codes = self.codes_by_api.get(ctx.api, self.codes if ctx.api in ("Produce", "Fetch") else None)
+            if k == "error" and not codes:
                 k = "drop_before"
             plan.fault = k
             if k == "error":
-                plan.code = self.rng.choice(self.codes)
+                plan.code = self.rng.choice(codes)
         return plan
 
     def metadata_view(self, cluster, node_id):
